@@ -175,7 +175,8 @@ func runC04(c *wk.Ctx) {
 			}
 		}
 		// (e) deep nesting
-		if idx%40 == 0 || idx < int64(len(gen.TrickyShapes())) {
+		// (41 and 287 are coprime with the number of shards, so these expensive cases spread over all of them)
+		if idx%41 == 0 || idx < int64(len(gen.TrickyShapes())) {
 			for _, asMap := range []bool{false, true} {
 				deep := gen.DeepNest(2000, asMap)
 				for _, op := range c04Ops {
@@ -183,6 +184,9 @@ func runC04(c *wk.Ctx) {
 				}
 				// the same with a value at the bottom that nothing accepts: the error has to travel all the way up
 				for _, leaf := range []any{nil, func() {}, "bottom"} {
+					if !c.Quick() && idx%287 != 0 && idx >= int64(len(gen.TrickyShapes())) {
+						break
+					}
 					deepBad := gen.DeepNestLeaf(2000, asMap, leaf)
 					for _, op := range c04Ops {
 						call(op, deepBad, "deep-nesting-bad-leaf")
